@@ -75,3 +75,11 @@ Lemma agree_groupby_src_b : groupby_src_b = exp_groupby_src_b. Proof. reflexivit
 
 (* the two shipped groupBy implementations have the same (normalised) body *)
 Lemma groupby_twins : groupby_src_a = groupby_src_b. Proof. reflexivity. Qed.
+
+(* C13: plush.go / template.go functions transcribed by model/Cache.v *)
+Lemma agree_body_plush_Parse : body_plush_Parse = exp_body_plush_Parse. Proof. reflexivity. Qed.
+Lemma agree_body_plush_Render : body_plush_Render = exp_body_plush_Render. Proof. reflexivity. Qed.
+Lemma agree_body_NewTemplate : body_NewTemplate = exp_body_NewTemplate. Proof. reflexivity. Qed.
+Lemma agree_body_Template_Parse : body_Template_Parse = exp_body_Template_Parse. Proof. reflexivity. Qed.
+Lemma agree_body_Template_Exec : body_Template_Exec = exp_body_Template_Exec. Proof. reflexivity. Qed.
+Lemma agree_body_Template_Clone : body_Template_Clone = exp_body_Template_Clone. Proof. reflexivity. Qed.
